@@ -162,7 +162,11 @@ func (w *sworld) caller(i int) {
 	w.S.UnLock(lock)
 }
 
-func executeSched(cfg simkit.RunConfig, sc *Scenario, hooked bool) *simkit.RunResult {
+// executeSched runs one scenario against the scheduler. contained: the scheduler is
+// built by the shim VerifNewScheduler (same fields, same run() loop) whose goroutine
+// recovers a panic, so that a panicking library is reported as a violation instead
+// of killing the process; otherwise by the real NewScheduler.
+func executeSched(cfg simkit.RunConfig, sc *Scenario, hooked, contained bool) *simkit.RunResult {
 	n := len(sc.Txns)
 	w := &sworld{sc: sc, parked: map[string]*parkedG{}, actors: map[int64]string{}, hookSites: map[string]int{},
 		called: make([]bool, n), returned: make([]int, n), retSeen: make([]bool, n), unlocked: make([]bool, n), unlSeen: make([]bool, n),
@@ -171,7 +175,16 @@ func executeSched(cfg simkit.RunConfig, sc *Scenario, hooked bool) *simkit.RunRe
 		yieldHook = w.hook
 		defer func() { yieldHook = nil }()
 	}
-	w.S = latch.NewScheduler(sc.Slots)
+	if contained {
+		w.S = latch.VerifNewScheduler(sc.Slots, func(v any) {
+			w.mu.Lock()
+			w.panics = append(w.panics, fmt.Sprintf("scheduler goroutine: %v", v))
+			w.mu.Unlock()
+		})
+	} else {
+		w.S = latch.NewScheduler(sc.Slots)
+	}
+	seen := make([]*latch.Lock, n) // every Lock the simulator has seen, per transaction
 	w.L = w.S.VerifLatches()
 	mon := newMonitor(sc.Txns, stepBound(sc))
 	byStart := map[uint64]int{}
@@ -244,6 +257,11 @@ func executeSched(cfg simkit.RunConfig, sc *Scenario, hooked bool) *simkit.RunRe
 		w.mu.Unlock()
 		sort.Strings(names)
 		s := takeSnap(w.L, n, find, known)
+		for i, l := range s.lock {
+			if l != nil {
+				seen[i] = l
+			}
+		}
 		for _, wl := range s.waiting {
 			if len(wl) > 0 {
 				waitedSome = true
@@ -291,7 +309,7 @@ func executeSched(cfg simkit.RunConfig, sc *Scenario, hooked bool) *simkit.RunRe
 		}
 	}
 	for _, p := range w.panics {
-		mon.report("panic", simkit_first(p), fmt.Sprintf("a caller panicked: %s\n%s", p, ctx()))
+		mon.report("panic", simkit_first(p), fmt.Sprintf("the library panicked: %s\n%s", p, ctx()))
 	}
 	w.mu.Unlock()
 	final := takeSnap(w.L, n, find, w.locks)
@@ -300,7 +318,7 @@ func executeSched(cfg simkit.RunConfig, sc *Scenario, hooked bool) *simkit.RunRe
 	} else if len(w.panics) == 0 {
 		for i, nd := range final.nodes {
 			if nd.Holder != nil {
-				mon.report("residue", "holder", fmt.Sprintf("all transactions have unlocked but key %q still names T%d as holder\n%s", nd.Key, final.holder[0][i], ctx()))
+				mon.report("residue", "holder", fmt.Sprintf("all transactions have unlocked but key %q still names T%d as holder\n%s", nd.Key, final.holder[i], ctx()))
 			}
 		}
 		for i, wl := range final.waiting {
@@ -339,16 +357,22 @@ func executeSched(cfg simkit.RunConfig, sc *Scenario, hooked bool) *simkit.RunRe
 		}
 		if len(ps) == 0 {
 			// blocked in Lock: end their wait by force (the violation is already recorded)
-			_, waiting := w.L.VerifDump()
 			did := false
-			for _, wl := range waiting {
-				for _, l := range wl {
-					if !forced[l] {
-						forced[l] = true
-						l.VerifForceWake()
-						did = true
-					}
+			w.mu.Lock()
+			var victims []*latch.Lock
+			for i := 0; i < n; i++ {
+				if !w.finished[i] && w.called[i] && w.returned[i] == vNone && seen[i] != nil && !forced[seen[i]] {
+					forced[seen[i]] = true
+					victims = append(victims, seen[i])
 				}
+			}
+			w.mu.Unlock()
+			for _, l := range victims {
+				func() {
+					defer func() { _ = recover() }()
+					l.VerifForceWake()
+				}()
+				did = true
 			}
 			if !did {
 				time.Sleep(time.Millisecond)
@@ -356,8 +380,20 @@ func executeSched(cfg simkit.RunConfig, sc *Scenario, hooked bool) *simkit.RunRe
 		}
 	}
 	w.S.Close()
-	wg.Wait()
 	synctest.Wait()
+	allDone := true
+	w.mu.Lock()
+	for i := 0; i < n; i++ {
+		if !w.finished[i] {
+			allDone = false
+		}
+	}
+	w.mu.Unlock()
+	if allDone {
+		wg.Wait()
+	} else {
+		res.Stats["sched.leaked-caller"] = 1 // (a violation was reported; the runner will call this run aborted)
+	}
 
 	res.Violations = mon.violations()
 	for k, v := range mon.stats {
